@@ -314,6 +314,52 @@ def readChunks : Nat → List (List Nat) → Option (List Nat × List (List Nat)
 def decC (f : Fmt) (cs : List (List Nat)) : Option (Val × List (List Nat)) :=
   decG readChunks f cs
 
+/-! ## A transport that returns short counts
+
+  `io.Reader.Read(p)` may return any count `0 ≤ n ≤ len(p)`. The stream is modelled as the list of
+  the counts the transport is going to deliver (its chunks; an empty chunk is a `Read` that returns
+  0 bytes). `readOnce` is one `Read` call, `readFullLoop` is `io.ReadFull` (what every fixed-width
+  read of the library does after the fixes C08-B/C/T: `io.ReadFull`, or `Peek(n)`/`Discard(n)` on a
+  `bufio.Reader`, which loops over `Read` in `fill`). `readSingle` is the defective pattern the
+  library used to have (one `Read` call whose count is not looked at; the unread part of the buffer
+  stays zero). -/
+
+/-- one `Read(p)` with `len(p) = n`: at most `n` bytes, possibly fewer (the next chunk). -/
+def readOnce (n : Nat) : List (List Nat) → List Nat × List (List Nat)
+  | [] => ([], [])
+  | c :: cs => if c.length ≤ n then (c, cs) else (c.take n, c.drop n :: cs)
+
+/-- `io.ReadFull(r, p)` with `len(p) = n`: `Read` until `n` bytes have arrived; `none` when the
+    stream ends first. (Unrolled so that it is structurally recursive on the chunks; see
+    `readFullLoop_step` for the loop form.) -/
+def readFullLoop : Nat → List (List Nat) → Option (List Nat × List (List Nat))
+  | 0, cs => some ([], cs)
+  | _ + 1, [] => none
+  | n + 1, c :: cs =>
+    if c.length ≤ n + 1 then
+      match readFullLoop (n + 1 - c.length) cs with
+      | none => none
+      | some (bs, r) => some (c ++ bs, r)
+    else some (c.take (n + 1), c.drop (n + 1) :: cs)
+
+/-- the decoder on a transport that returns short counts. -/
+def decS (f : Fmt) (cs : List (List Nat)) : Option (Val × List (List Nat)) :=
+  decG readFullLoop f cs
+
+/-- the defective pattern: ONE `Read`, short counts accepted, rest of the buffer zero. -/
+def readSingle (n : Nat) (cs : List (List Nat)) : Option (List Nat × List (List Nat)) :=
+  some ((readOnce n cs).1 ++ List.replicate (n - (readOnce n cs).1.length) 0, (readOnce n cs).2)
+
+/-! ## `MarshalBinary` -/
+
+/-- `MarshalBinary` of every type: allocate `BinarySize()` bytes (`buffer.NewBufferSize`),
+    `WriteTo` into them, return the WHOLE buffer; an object that does not fit is an error
+    (`buffer.Buffer.Write`, fix C08-S). -/
+def marshalBinary (f : Fmt) (v : Val) : Option (List Nat) :=
+  if (enc f v).length ≤ size f v then
+    some (enc f v ++ List.replicate (size f v - (enc f v).length) 0)
+  else none
+
 /-- decode `k` objects back-to-back from one flat stream. -/
 def decMany (f : Fmt) : Nat → List Nat → Option (List Val × List Nat) := decN (dec f)
 
@@ -747,6 +793,10 @@ def shamirSecretShare : Fmt := polyQP                  -- multiparty/threshold.g
 def fmtOf : String → Option Fmt
   | "u8" => some u8 | "u32" => some u32 | "u64" => some u64
   | "vecu64" => some (vecOf u64)
+  | "vecu32" => some (vecOf u32)
+  | "vecu16" => some (vecOf u16)
+  | "vecu8" => some (vecOf u8)
+  | "mappoly" => some (mapOf poly)
   | "poly" => some poly
   | "polyqp" => some polyQP
   | "scale" => some scale
@@ -777,5 +827,105 @@ def fmtOf : String → Option Fmt
   | "refreshshare" => some refreshShare
   | "shamirshare" => some shamirSecretShare
   | _ => none
+
+/-! ## Which Go field every leaf of a format carries
+
+  `leafCount f` is the number of value-carrying leaves of a format (a slice of scalars is ONE
+  field; counts and presence bytes carry no field). `goFields` gives, for every serialisable Go
+  type, its format and the Go field each leaf carries, in wire order, in the path notation of the
+  harness's reflection walker (`.` field, `?` nilable pointer, `[]` slice, `[i]` array element,
+  `{key}`/`{}` map key/value, embedded structs by type name), plus the fields that are NOT
+  serialised because they are derived. The harness compares the union with what Go reflection
+  finds in the type (tie `fields`), so a field added to a struct without being serialised is
+  detected; `Props/C08.lean: codec_fields_complete` proves that the list has exactly one entry per
+  leaf of the format. -/
+
+def leafCount : Fmt → Nat
+  | .unit => 0
+  | .uint _ => 1
+  | .raw _ => 1
+  | .hex2 _ => 1
+  | .shex2 => 1
+  | .framed _ f _ => leafCount f
+  | .pair a b => leafCount a + leafCount b
+  | .vec _ _ f => leafCount f
+  | .opt _ _ f => leafCount f
+  | .tailIf _ a _ b => leafCount a + leafCount b
+
+def pre (p : String) (l : List String) : List String := l.map (p ++ ·)
+
+def fPoly : List String := ["Coeffs[][]"]
+def fPolyQP : List String := pre "Q." fPoly ++ pre "P." fPoly
+def fScale : List String := ["Value", "Mod?"]
+def fPtMeta : List String :=
+  pre "Scale." fScale ++ ["IsBatched", "IsBitReversed", "LogDimensions.Rows", "LogDimensions.Cols"]
+def fCtMeta : List String := ["IsNTT", "IsMontgomery"]
+def fMeta : List String := pre "PlaintextMetaData." fPtMeta ++ pre "CiphertextMetaData." fCtMeta
+def fElement (t : List String) : List String := pre "MetaData?." fMeta ++ pre "Value[]." t
+def fGadget : List String := ["BaseTwoDecomposition"] ++ pre "Value[][][]." fPolyQP
+def fEvk : List String := pre "GadgetCiphertext." fGadget ++ ["Seed?"]
+def fGk : List String := ["GaloisElement", "NthRoot"] ++ pre "EvaluationKey." fEvk
+def fEvkSet : List String :=
+  pre "RelinearizationKey?.EvaluationKey." fEvk ++ ["GaloisKeys{key}"] ++ pre "GaloisKeys{}." fGk
+
+/-- Go type ↦ (format name, serialised fields in wire order, derived fields not serialised). -/
+def goFields : String → Option (String × List String × List String)
+  | "structs.Vector[uint64]" => some ("vecu64", ["[]"], [])
+  | "structs.Vector[uint32]" => some ("vecu32", ["[]"], [])
+  | "structs.Vector[uint16]" => some ("vecu16", ["[]"], [])
+  | "structs.Vector[uint8]" => some ("vecu8", ["[]"], [])
+  | "structs.Matrix[uint64]" => some ("poly", ["[][]"], [])
+  | "structs.Map[uint64,ring.Poly]" => some ("mappoly", ["{key}"] ++ pre "{}." fPoly, [])
+  | "ring.Poly" => some ("poly", fPoly, [])
+  | "ringqp.Poly" => some ("polyqp", fPolyQP, [])
+  | "rlwe.PlaintextMetaData" => some ("ptmeta", fPtMeta, [])
+  | "rlwe.CiphertextMetaData" => some ("ctmeta", fCtMeta, [])
+  | "rlwe.MetaData" => some ("meta", fMeta, [])
+  | "rlwe.Ciphertext" => some ("ct", pre "Element." (fElement fPoly), [])
+  /- `Plaintext.Value` is `Element.Value[0]` (re-derived by `ReadFrom`, core/rlwe/plaintext.go) -/
+  | "rlwe.Plaintext" => some ("pt", pre "Element." (fElement fPoly), pre "Value." fPoly)
+  | "rlwe.Element[ringqp.Poly]" => some ("elqp", fElement fPolyQP, [])
+  | "rlwe.VectorQP" => some ("vecqp", pre "[]." fPolyQP, [])
+  | "rlwe.PublicKey" => some ("pk", pre "Value[]." fPolyQP, [])
+  | "rlwe.SecretKey" => some ("sk", pre "Value." fPolyQP, [])
+  | "rlwe.GadgetCiphertext" => some ("gct", fGadget, [])
+  | "rlwe.EvaluationKey" => some ("evk", fEvk, [])
+  | "rlwe.RelinearizationKey" => some ("rlk", pre "EvaluationKey." fEvk, [])
+  | "rlwe.GaloisKey" => some ("gk", fGk, [])
+  | "rlwe.MemEvaluationKeySet" => some ("evkset", fEvkSet, [])
+  | "rgsw.Ciphertext" => some ("rgsw", pre "Value[0]." fGadget ++ pre "Value[1]." fGadget, [])
+  | "polynomial.PowerBasis" =>
+    some ("pb", ["Basis", "Value{key}"] ++ pre "Value{}.Element." (fElement fPoly), [])
+  | "bootstrapping.EvaluationKeys" =>
+    some ("btpkeys", pre "EvkN1ToN2?." fEvk ++ pre "EvkN2ToN1?." fEvk ++ pre "EvkRealToCmplx?." fEvk ++
+      pre "EvkCmplxToReal?." fEvk ++ pre "EvkDenseToSparse?." fEvk ++ pre "EvkSparseToDense?." fEvk ++
+      pre "MemEvaluationKeySet?." fEvkSet, [])
+  /- all fields of `rlwe.Parameters` are private and rebuilt from the JSON of its literal -/
+  | "rlwe.Parameters" => some ("params", ["<json>"], [])
+  | "multiparty.PublicKeyGenShare" => some ("cpkshare", pre "Value." fPolyQP, [])
+  | "multiparty.EvaluationKeyGenShare" => some ("evkshare", pre "GadgetCiphertext." fGadget, [])
+  | "multiparty.RelinearizationKeyGenShare" => some ("rlkshare", pre "GadgetCiphertext." fGadget, [])
+  | "multiparty.GaloisKeyGenShare" =>
+    some ("galshare", ["GaloisElement"] ++ pre "EvaluationKeyGenShare.GadgetCiphertext." fGadget, [])
+  | "multiparty.KeySwitchShare" => some ("ksshare", pre "Value." fPoly, [])
+  | "multiparty.PublicKeySwitchShare" => some ("pksshare", pre "Element." (fElement fPoly), [])
+  | "multiparty.RefreshShare" =>
+    some ("refreshshare", pre "MetaData." fMeta ++ pre "EncToShareShare.Value." fPoly ++
+      pre "ShareToEncShare.Value." fPoly, [])
+  | "multiparty.ShamirSecretShare" => some ("shamirshare", pre "Poly." fPolyQP, [])
+  | _ => none
+
+/-- the Go types of `goFields` (the serialisable types that have `WriteTo`/`ReadFrom`). -/
+def goTypes : List String :=
+  ["structs.Vector[uint64]", "structs.Vector[uint32]", "structs.Vector[uint16]", "structs.Vector[uint8]",
+   "structs.Matrix[uint64]", "structs.Map[uint64,ring.Poly]", "ring.Poly", "ringqp.Poly",
+   "rlwe.PlaintextMetaData", "rlwe.CiphertextMetaData", "rlwe.MetaData", "rlwe.Ciphertext",
+   "rlwe.Plaintext", "rlwe.Element[ringqp.Poly]", "rlwe.VectorQP", "rlwe.PublicKey", "rlwe.SecretKey",
+   "rlwe.GadgetCiphertext", "rlwe.EvaluationKey", "rlwe.RelinearizationKey", "rlwe.GaloisKey",
+   "rlwe.MemEvaluationKeySet", "rgsw.Ciphertext", "polynomial.PowerBasis",
+   "bootstrapping.EvaluationKeys", "rlwe.Parameters", "multiparty.PublicKeyGenShare",
+   "multiparty.EvaluationKeyGenShare", "multiparty.RelinearizationKeyGenShare",
+   "multiparty.GaloisKeyGenShare", "multiparty.KeySwitchShare", "multiparty.PublicKeySwitchShare",
+   "multiparty.RefreshShare", "multiparty.ShamirSecretShare"]
 
 end Lattigo.Codec
